@@ -218,7 +218,19 @@ func runWorld(run *rep.Run, rng *rand.Rand, eng, bal string, id int) {
 		for _, b := range backs {
 			b.WaitIdle(2 * time.Second)
 		}
-		time.Sleep(20 * time.Millisecond)
+		// the decrement runs after the response was handed to the client: bounded wait
+		for i := 0; i < 200; i++ {
+			zero := true
+			for _, g := range col.GetConnectionStats() {
+				if g != 0 {
+					zero = false
+				}
+			}
+			if zero {
+				break
+			}
+			time.Sleep(10 * time.Millisecond)
+		}
 		for n, g := range col.GetConnectionStats() {
 			if g != 0 {
 				run.Violation("C19/gauge/not-zero-after-traffic-stopped", fmt.Sprintf("active connections of %s = %d with no request in flight", n, g), map[string]any{"world": key})
